@@ -27,7 +27,15 @@ A0 = 0.2            # real amplitude per model amplitude unit  (rates scale with
 R0 = A0 * A0
 TOL = 1e-10
 
-VARIANTS = [("block2", "sigmaz"), ("perm", "sigmaz2_projector3"), ("perm", "sigmaz"), ("block2", "projector"), ("perm", "projector")]
+# named mechanism variants of NoiseChannels.tla (FlipKind, DephKind), tried in this order
+VARIANTS = {
+    "block2flip_dephasing_repaired": ("block2", "sigmaz2_projector3"),   # HEAD since 1efe2df: eff_noise 2x2 block flip as found, dephasing repaired
+    "fully_repaired": ("perm", "sigmaz2_projector3"),                    # full relabelling of eff_noise + repaired dephasing
+    "as_found_round0": ("block2", "sigmaz"),                             # the tree before 1efe2df
+    "perm_sigmaz": ("perm", "sigmaz"),
+    "block2_projector": ("block2", "projector"),
+    "intended_pulser_form": ("perm", "projector"),
+}
 INVS = ["IntendedLevels", "RelaxationIsRtoG", "RateAsSqrt", "TwoLevelIntended"]
 
 
@@ -226,15 +234,14 @@ def run(ctx: Ctx) -> None:
     ]
     amps = ctx.pick("cAmps2", "cAmps3")
     weights = "cWeights"
-    # ---- (1) model checking: the as-found mechanism (verdict for every case + invariants), and the
-    #          intended mechanism (must satisfy the requirement, otherwise the specification is inconsistent)
+    # ---- (1) TLC tables (verdict of the model for every case), one per named mechanism variant, lazily
     tables = {}
 
-    def model_table(flip: str, deph: str) -> dict:
-        name = f"{flip}_{deph}"
-        if name in tables:
-            return tables[name]
-        log = run_tlc("MCNoiseChannels", None, workdir=ctx.work, name=f"log_{name}", cfg_text=cfg_text(flip, deph, amps, weights, True), workers=4, coverage=True)
+    def model_table(vname: str) -> dict:
+        if vname in tables:
+            return tables[vname]
+        flip, deph = VARIANTS[vname]
+        log = run_tlc("MCNoiseChannels", None, workdir=ctx.work, name=f"log_{vname}", cfg_text=cfg_text(flip, deph, amps, weights, True), workers=4, coverage=True)
         ctx.add_tlc(log)
         rows = printed_tuples(log["out"], "CASE")
         if not rows:
@@ -242,27 +249,24 @@ def run(ctx: Ctx) -> None:
         acts = [a for a in (log.get("coverage_zero") or []) if a.startswith("Map")]
         if acts:
             raise MachineryError(f"spec actions never taken: {acts}")
-        tables[name] = {"rows": rows, "n_bad": len([r for r in rows if r[3] is False])}
-        ctx.log(f"model {name}: {len(rows)} cases, requirement fails on {tables[name]['n_bad']}")
-        return tables[name]
+        bad = [r[1] for r in rows if r[3] is False]
+        classes = sorted({f"{c['noise']}:{c['basis']}:dim{c['dim']}" for c in bad})
+        tables[vname] = {"rows": rows, "n_bad": len(bad), "bad_classes": classes}
+        ctx.log(f"model {vname} {VARIANTS[vname]}: {len(rows)} cases, requirement fails on {len(bad)} {classes}")
+        return tables[vname]
 
-    t0 = model_table("block2", "sigmaz")
-    res = run_tlc("MCNoiseChannels", None, workdir=ctx.work, name="mc_block2_sigmaz", cfg_text=cfg_text("block2", "sigmaz", amps, weights, False), workers=4)
-    ctx.add_tlc(res)
-    if bool(t0["n_bad"]) != bool(res["violated"]):
-        raise MachineryError(f"TLC invariant result {res['violated']} inconsistent with logged verdicts ({t0['n_bad']} bad)")
-    ctx.log(f"TLC, mechanism as found: invariants violated: {[v[1] for v in res['violated']]}")
-    res2 = run_tlc("MCNoiseChannels", None, workdir=ctx.work, name="mc_perm_projector", cfg_text=cfg_text("perm", "projector", amps, weights, False), workers=4)
+    first_name = next(iter(VARIANTS))
+    # the intended mechanism must satisfy the requirement, otherwise the specification is inconsistent
+    res2 = run_tlc("MCNoiseChannels", None, workdir=ctx.work, name="mc_intended", cfg_text=cfg_text(*VARIANTS["intended_pulser_form"], amps, weights, False), workers=4)
     ctx.add_tlc(res2)
     if res2["violated"]:
         raise MachineryError("the intended mechanism (full relabelling, Pulser's dephasing form) does not satisfy the requirement in the model: specification inconsistent")
-    ctx.coverage["model_verdicts"] = {"as_found(block2,sigmaz)": {"cases": len(t0["rows"]), "requirement_fails": t0["n_bad"], "invariants_violated": [x[1] for x in res["violated"]]},
-                                      "intended(perm,projector)": {"invariants_violated": []}}
 
     # ---- (2) binding A: every case on the real code
-    rows0 = tables["block2_sigmaz"]["rows"]
+    rows0 = model_table(first_name)["rows"]
     real = {}
     n_fail = 0
+    real_bad_classes = set()
     for r in rows0:
         c = r[1]
         key = json.dumps([c["basis"], c["dim"], c["noise"], c["s"], c["user"]])
@@ -271,18 +275,18 @@ def run(ctx: Ctx) -> None:
         real[key] = ev
         replay = {"case": c, "basis": c["basis"], "dim": c["dim"], "channels": ch, "how": "harness.drivers.C24.evaluate(basis, dim, channels)"}
         ok = report(ctx, ev, replay)
-        n_fail += 0 if ok else 1
+        if not ok:
+            n_fail += 1
+            real_bad_classes.add(f"{c['noise']}:{c['basis']}:dim{c['dim']}")
         ctx.case(("tlc", key), nontrivial="rejected" not in ev,
                  sample={"case": c, "requirement_holds_on_real_code": ok, "per_type": ev.get("per_type"), "emulator_levels": ev.get("levels")})
         ctx.traces_validated += 1
-    ctx.log(f"binding A: {len(rows0)} TLC cases instantiated on the real code, requirement fails on {n_fail}")
+    ctx.log(f"binding A: {len(rows0)} TLC cases instantiated on the real code, requirement fails on {n_fail} {sorted(real_bad_classes)}")
     # mechanism identification
     matched = None
-    for flip, deph in VARIANTS:
-        if matched is not None:
-            break
-        name = f"{flip}_{deph}"
-        t = model_table(flip, deph)
+    first_diff = None
+    for vname in VARIANTS:
+        t = model_table(vname)
         agree_ops = agree_verdict = True
         first = None
         for r in t["rows"]:
@@ -301,19 +305,29 @@ def run(ctx: Ctx) -> None:
                 agree_ops = False
                 first = first or (c, "operator entries differ")
         t["agree_ops"], t["agree_verdict"], t["first_diff"] = agree_ops, agree_verdict, first
-        if agree_ops and agree_verdict and matched is None:
-            matched = name
-    ctx.coverage["mechanism_identified"] = matched
-    ctx.coverage["binding_A"] = {k: {"ops_equal": v["agree_ops"], "verdicts_equal": v["agree_verdict"]} for k, v in tables.items()}
+        if vname == first_name:
+            first_diff = first
+        if agree_ops and agree_verdict:
+            matched = vname
+            break
+    ctx.coverage["mechanism_identified"] = None if matched is None else {"name": matched, "FlipKind": VARIANTS[matched][0], "DephKind": VARIANTS[matched][1]}
+    ctx.coverage["binding_A"] = {k: {"ops_equal": v["agree_ops"], "verdicts_equal": v["agree_verdict"]} for k, v in tables.items() if "agree_ops" in v}
+    mc_name = matched or first_name
+    res = run_tlc("MCNoiseChannels", None, workdir=ctx.work, name=f"mc_{mc_name}", cfg_text=cfg_text(*VARIANTS[mc_name], amps, weights, False), workers=4)
+    ctx.add_tlc(res)
+    tm = tables[mc_name]
+    if bool(tm["n_bad"]) != bool(res["violated"]):
+        raise MachineryError(f"TLC invariant result {res['violated']} inconsistent with logged verdicts ({tm['n_bad']} bad)")
+    ctx.log(f"TLC, mechanism {mc_name}: invariants violated: {[v[1] for v in res['violated']]}; predicted failing classes {tm['bad_classes']}")
+    ctx.coverage["model_verdicts"] = {mc_name: {"cases": len(tm["rows"]), "requirement_fails": tm["n_bad"], "failing_classes": tm["bad_classes"],
+                                                "invariants_violated": [x[1] for x in res["violated"]]},
+                                      "intended_pulser_form": {"invariants_violated": []}}
     if matched is None:
-        t = tables["block2_sigmaz"]
-        ctx.model_drift(f"no mechanism variant of NoiseChannels.tla reproduces get_lindblad_operators on all cases; as-found variant first differs at {t['first_diff']}")
+        ctx.model_drift(f"no mechanism variant of NoiseChannels.tla reproduces get_lindblad_operators on all cases; variant {first_name} first differs at {first_diff}")
     else:
-        ctx.log(f"mechanism identified: {matched} (operator entries and verdicts equal on all {len(rows0)} cases)")
-        if matched != "block2_sigmaz":
-            ctx.notes.append(f"the code no longer follows the as-found mechanism (block2_sigmaz) but {matched}")
-        if tables[matched]["n_bad"] and n_fail == 0:
-            raise MachineryError("model predicts failing cases, real code matches the model, yet no real failure was found")
+        ctx.log(f"mechanism identified: {matched} {VARIANTS[matched]} (operator entries and verdicts equal on all {len(rows0)} cases)")
+        if tm["bad_classes"] != sorted(real_bad_classes) or tm["n_bad"] != n_fail:
+            raise MachineryError(f"model predicts failing classes {tm['bad_classes']} ({tm['n_bad']} cases), real code fails on {sorted(real_bad_classes)} ({n_fail} cases) although the mechanism matches")
 
     # ---- (3) random noise models
     rng = np.random.default_rng(ctx.seed + 24)
